@@ -115,8 +115,15 @@ class MilStream(Stream):
     model_out = "c15_expected"
     shard = 24
 
+    _n = 0
+
     def go_case(self, c):
-        return {k: v for k, v in c.items() if k != "kind"}
+        # every other call goes through persistent, overwritten caller buffers (results must be a function of the
+        # arguments only, whatever buffers carried them and whatever was computed before)
+        d = {k: v for k, v in c.items() if k != "kind"}
+        MilStream._n += 1
+        d["reuse"] = MilStream._n % 2 == 1
+        return d
 
     def classify(self, c, o):
         return c.get("kind", c["fn"])
